@@ -11,6 +11,16 @@ WS = [" ", "\t", "\n", "\r", "\u0085", " ", "　", " ", " ", "\n"]
 OTHER_HANGUL = "가나다라마바사응웅읭힣각"
 ASCII = "abcXYZ019,;:'\"()[]{}<>+-*/=_#@$%^&|~`\\"
 OTHER = "あ漢字éß🙂😀∀→𝔸­​́"
+# characters just outside every class the grammar distinguishes (none of them means anything): the code points around the
+# Hangul-syllable block and the jamo blocks, look-alikes and code-point neighbours of the dots, hearts, `?` and `!`
+EDGE_OTHER = ("\uABFF\uD7A4\uD7A5\uD7AF\uD7B0\uD7FB\u1100\u11FF\u3131\u318E\uFFA1" + ",\u00B7\u2024\u2025\u2027\u22ED\u22F0\u22F1\uFE19\uFF0E\u3002"
+              + "\u2660\u2662\u2664\u2666\u2763\u2765\U0001F493\U0001F494\U0001F49E\U0001F49F\U0001F5A4\U0001F90D"
+              + "\uFF1F\uFF01\u00BF\u00A1\u203C\u2047\u2753\u2757\u037E")
+OTHER += EDGE_OTHER
+# Hangul syllables next to the ones with a meaning (plain syllables: they count inside a command and nowhere else)
+_special = set(SINGLE + START + ENDS + FILLER)
+OTHER_HANGUL += "".join(sorted(set(chr(ord(c) + d) for c in _special for d in (-1, 1, -28, 28) if chr(ord(c) + d) not in _special
+                                   and 0xAC00 <= ord(c) + d <= 0xD7A3)))
 
 
 def class_of_kind(k):
@@ -258,6 +268,8 @@ def gen_malformed(rng, n):
             if 0xD800 <= c <= 0xDFFF:
                 c = 0xE000
             out.append(chr(c))
+        elif r < 0.75:
+            out.append(rng.choice(EDGE_OTHER))
         elif r < 0.8:
             out.append(chr(rng.choice([0, 0x7F, 0x80, 0x85, 0x7FF, 0x800, 0xFFFF, 0x10000, 0x10FFFF, 0xD7FF, 0xE000, 0x2028, 0x1680, 0x200B])))
         else:
